@@ -14,6 +14,27 @@ CLAIMS = {
                      "rng stream). _roll32 is dead code on 64-bit builds and not modelled.",
         "technique": "Lean 4 theorems on an executable model of _roll64/Roll + differential correspondence stream",
     },
+    "C04": {
+        "text": "Theorems over all parameter tuples and all 64-bit word streams on the Lean model of RollCommon/Fate/DoubleCross: "
+                "exactly `times` dice, each a face 1..sides after the clamp; kept count = k or times-k clamped; shown order is a "
+                "permutation sorted so the kept dice are the lowest/highest; total = sum of kept (true sum under NoOverflow, "
+                "wrapped otherwise); text shape; Fate symbols and sum; Double Cross round value = 10 iff a critical die else "
+                "the highest die. The model is tied to roll_func.go by per-family correspondence streams; an independent "
+                "game-rule oracle re-derives every result from the dice the implementation shows (also through VM syntax), "
+                "and illegal parameter tuples must be rejected by the VM.",
+        "note": TB + "CoC and WoD rules are checked by the correspondence stream and the rule oracle, not yet by a Lean theorem. "
+                     "sort.Slice is modelled as merge sort (equal ints are indistinguishable).",
+        "technique": "Lean 4 theorems on an executable model of roll_func.go + differential streams + rule oracle",
+    },
+    "C15": {
+        "text": "Theorems (all parameters, all streams): min/max mode never consume a word; every XdY term's min/max-mode dice sit "
+                "at the clamped extreme face (bounds attained); min <= random <= max for XdY with keep/drop/min/max under "
+                "NoOverflow; Fate is within [-4,4]; monotone expressions inherit the bracket by induction. The CoC penalty "
+                "lower bound is refuted by a proved witness (known finding). Tie: roll streams in the three modes; oracle: "
+                "bracket, attainment and untouched generator on the implementation, also through the VM syntax.",
+        "note": TB + "CoC bonus bracket is validated by the stream/oracle only.",
+        "technique": "Lean 4 theorems (bracketing by induction) + three-mode differential streams",
+    },
 }
 
 NOT_YET = {}
